@@ -43,6 +43,15 @@ def main():
         ctx.violation('correspondence-broken', 'check crashed: ' + tb[-1500:],
                       {'component': 'harness', 'traceback': tb})
     terr = [e for e in b['errors'] if e.startswith('translator ')]
+    pins = b.get('pins_broken') or []
+    if pins and not terr and b['model_ok']:
+        # a unit of the source that the hand-written model of this property was written against has changed (AST fingerprint,
+        # harness/pins.json): the model is not known to describe this code.  The search above ran at its normal depth; a concrete
+        # failing input it found takes precedence as the replay
+        ctx.notes.append('pinned source changed: ' + '; '.join(pins)[:600])
+        ctx.violation('correspondence-broken', 'the source the hand-written model of %s was written against has changed (the tie is broken: '
+                      'the theorems of Props/%s.v are about the pinned source): %s' % (a.prop, a.prop, '; '.join(pins)[:1000]),
+                      {'component': 'pins harness/pins.json', 'changed_units': pins, 'theorem_file': 'coq/theories/Props/%s.v' % a.prop})
     if terr and b['model_ok']:
         # the translator failed closed: a table has a shape it does not handle, or a function body the hand-written model was
         # written against has changed.  The model data in Gen/*.v is then NOT what the code says now, so the theorems are not
